@@ -1,4 +1,7 @@
 import SwiftMT.Stage
 import SwiftMT.Dispatch
+import SwiftMT.MParser
+import SwiftMT.Props.C01
+import SwiftMT.Props.C09
 import SwiftMT.Props.C12
 import SwiftMT.Props.C13
